@@ -29,6 +29,7 @@ def plan(tier, seed):
     secs = 25 if quick else 300
     shards = [{"name": f"complete{i}", "gen": "complete", "seconds": secs} for i in range(6)]
     shards += [{"name": f"xor{i}", "gen": "extra", "seconds": secs} for i in range(3)]
+    shards.append({"name": "big", "gen": "big", "seconds": secs})  # expressions longer than any plausible fixed limit
     for g in ("layer", "seedmut", "soup", "xorbytes", "matryoshka", "ctxdec", "xor"):
         shards.append({"name": g, "gen": g, "seconds": secs})
     return shards
